@@ -2,6 +2,7 @@ package mcap
 
 import (
 	"fmt"
+	"math"
 )
 
 type ReadOrder int
@@ -25,6 +26,16 @@ type ReadOptions struct {
 
 	StartNanos uint64
 	EndNanos   uint64
+
+	// endSet records that an upper bound was given. Without one a read is
+	// unbounded: it also yields messages whose log time is the largest uint64,
+	// which the exclusive bound EndNanos cannot express.
+	endSet bool
+}
+
+// unboundedEnd reports whether no upper time bound applies to the read.
+func (ro *ReadOptions) unboundedEnd() bool {
+	return !ro.endSet && ro.EndNanos == math.MaxUint64
 }
 
 func (ro *ReadOptions) Finalize() {
@@ -33,6 +44,7 @@ func (ro *ReadOptions) Finalize() {
 	}
 	if ro.EndNanos == 0 && ro.End > 0 {
 		ro.EndNanos = uint64(ro.End)
+		ro.endSet = true
 	}
 }
 
@@ -84,6 +96,7 @@ func BeforeNanos(end uint64) ReadOpt {
 			return fmt.Errorf("end cannot come before start")
 		}
 		ro.EndNanos = end
+		ro.endSet = true
 		return nil
 	}
 }
